@@ -4,6 +4,7 @@ import (
 	"fmt"
 	"go/types"
 	"io"
+	"sort"
 
 	"golang.org/x/tools/go/ssa"
 )
@@ -258,4 +259,27 @@ func (e *Engine) DumpCons(st *State, w io.Writer) {
 	for _, c := range st.cons {
 		fmt.Fprintf(w, "      %s <= 0\n", e.LinStr(c))
 	}
+}
+
+// FrameInts lists the integer SSA values of activation fr known in st (sorted by name).
+func (e *Engine) FrameInts(st *State, fr *Frame) []Lin {
+	type nv struct {
+		n string
+		l Lin
+	}
+	var all []nv
+	for k, v := range st.vals {
+		if k.f != fr.id || k.v == nil {
+			continue
+		}
+		if iv, ok := v.(IntV); ok {
+			all = append(all, nv{k.v.Name(), iv.L})
+		}
+	}
+	sort.Slice(all, func(i, j int) bool { return all[i].n < all[j].n })
+	out := make([]Lin, len(all))
+	for i, x := range all {
+		out[i] = x.l
+	}
+	return out
 }
